@@ -37,6 +37,7 @@ def judge(rec, opts):
     if rec["ok"] and rec["result"]["t"] == "range":
         return out          # a range cannot travel through the json filter
     want = jsonable(replay.to_py(rec["result"])) if rec["ok"] else None
+    alts = [jsonable(replay.to_py(a)) for a in rec.get("alts", [])]
     env = opts.get("_env")
     if env is None:
         env = opts["_env"] = Environment()
@@ -51,7 +52,7 @@ def judge(rec, opts):
     except Exception as e:  # noqa: BLE001
         got = {"ok": False, "err": "non-liquid:" + type(e).__name__}
     if rec["ok"]:
-        if not got["ok"] or got["v"] != want:
+        if not got["ok"] or (got["v"] != want and got["v"] not in alts):
             out.append((f"filter-result:{name}:{shape}", {"want": want, "got": got, "src": src, "data": repr(data)}))
     elif got["ok"] or (rec["err"] != got["err"] and not got["err"].startswith("Liquid")):
         out.append((f"filter-error:{name}:{shape}", {"want": rec["err"], "got": got, "src": src, "data": repr(data)}))
@@ -61,7 +62,7 @@ def judge(rec, opts):
         try:
             dv = jsonable(fn(left, *args))
             dv = json.loads(json.dumps(dv, default=str))
-            if dv != want and not (dv is None and want is None):
+            if dv != want and dv not in alts and not (dv is None and want is None):
                 out.append((f"filter-direct-call:{name}:{shape}", {"want": want, "got": dv}))
         except Exception as e:  # noqa: BLE001
             out.append((f"filter-direct-call-raises:{name}:{shape}", {"want": want, "got": repr(e)}))
